@@ -180,14 +180,15 @@ def MdefLayout.Ok (f : File) (h : MdefHdr) (l : MdefLayout) : Prop :=
 theorem mdefTopo_sat (f : File) (h : MdefHdr) (names : List Nat) (treeOff phoneOff sseqOff sseqSize : Nat)
     (hn1 : names.length = h.nCiphone) (hn2 : ∀ x ∈ names, NameOk f x)
     (hphone : phoneOff + 12 * h.nPhone ≤ f.size) (hseq : sseqOff + 2 * sseqSize ≤ f.size) :
-    (mdefTopo f h names treeOff phoneOff sseqOff sseqSize).Sat (MdefLayout.Ok f h) := by
+    (mdefTopo f h names treeOff phoneOff sseqOff sseqSize).Sat fun l => MdefLayout.Ok f h l ∧
+      l.treeOff = treeOff ∧ l.phoneOff = phoneOff ∧ l.sseqOff = sseqOff := by
   unfold mdefTopo
   by_cases he : h.nEmit ≠ 0
   · rw [if_pos he]
     by_cases hs : sseqSize ≠ h.nSseq * h.nEmit
     · rw [if_pos hs]; trivial
     · rw [if_neg hs]
-      refine ⟨hn1, hn2, hphone, hseq, ⟨he, Classical.byContradiction fun hx => hs hx⟩, ?_⟩
+      refine ⟨⟨hn1, hn2, hphone, hseq, ⟨he, Classical.byContradiction fun hx => hs hx⟩, ?_⟩, rfl, rfl, rfl⟩
       intro lens hl
       cases hl
   · rw [if_neg he]
@@ -199,7 +200,7 @@ theorem mdefTopo_sat (f : File) (h : MdefHdr) (names : List Nat) (treeOff phoneO
       by_cases hsum : sumN (raw.map UInt8.toNat) ≠ sseqSize
       · rw [if_pos hsum]; trivial
       · rw [if_neg hsum]
-        refine ⟨hn1, hn2, hphone, hseq, ⟨by simp [hraw], Classical.byContradiction fun hx => hsum hx⟩, ?_⟩
+        refine ⟨⟨hn1, hn2, hphone, hseq, ⟨by simp [hraw], Classical.byContradiction fun hx => hsum hx⟩, ?_⟩, rfl, rfl, rfl⟩
         intro lens _
         show sseqOff + 2 * sseqSize + h.nSseq ≤ f.size
         omega
@@ -207,7 +208,8 @@ theorem mdefTopo_sat (f : File) (h : MdefHdr) (names : List Nat) (treeOff phoneO
 theorem mdefSseq_sat (f : File) (h : MdefHdr) (names : List Nat) (treeOff phoneOff : Nat)
     (hn1 : names.length = h.nCiphone) (hn2 : ∀ x ∈ names, NameOk f x)
     (hphone : phoneOff + 12 * h.nPhone ≤ f.size) :
-    (mdefSseq f h names treeOff phoneOff (phoneOff + 12 * h.nPhone)).Sat (MdefLayout.Ok f h) := by
+    (mdefSseq f h names treeOff phoneOff (phoneOff + 12 * h.nPhone)).Sat fun l => MdefLayout.Ok f h l ∧
+      l.treeOff = treeOff ∧ l.phoneOff = phoneOff ∧ l.sseqOff = phoneOff + 12 * h.nPhone + 4 := by
   unfold mdefSseq
   by_cases h4 : f.size - (phoneOff + 12 * h.nPhone) < 4
   · rw [if_pos h4]; trivial
@@ -224,7 +226,8 @@ theorem mdefSseq_sat (f : File) (h : MdefHdr) (names : List Nat) (treeOff phoneO
 
 theorem mdefPhones_sat (f : File) (h : MdefHdr) (names : List Nat) (treeOff phoneOff : Nat)
     (hn1 : names.length = h.nCiphone) (hn2 : ∀ x ∈ names, NameOk f x) (hp : phoneOff ≤ f.size) :
-    (mdefPhones f h names treeOff phoneOff).Sat (MdefLayout.Ok f h) := by
+    (mdefPhones f h names treeOff phoneOff).Sat fun l => MdefLayout.Ok f h l ∧
+      l.treeOff = treeOff ∧ l.phoneOff = phoneOff ∧ l.sseqOff = phoneOff + 12 * h.nPhone + 4 := by
   unfold mdefPhones
   by_cases hb : h.nPhone > (f.size - phoneOff) / 12
   · rw [if_pos hb]; trivial
@@ -236,7 +239,9 @@ theorem mdefPhones_sat (f : File) (h : MdefHdr) (names : List Nat) (treeOff phon
 
 theorem mdefTree_sat (f : File) (h : MdefHdr) (names : List Nat) (treeRel : Nat)
     (hn1 : names.length = h.nCiphone) (hn2 : ∀ x ∈ names, NameOk f x) (hd : h.dataOff ≤ f.size) :
-    (mdefTree f h names treeRel).Sat (MdefLayout.Ok f h) := by
+    (mdefTree f h names treeRel).Sat fun l => MdefLayout.Ok f h l ∧ l.treeOff = h.dataOff + treeRel ∧
+      l.phoneOff = h.dataOff + treeRel + 8 * h.nCdTree ∧
+      l.sseqOff = h.dataOff + treeRel + 8 * h.nCdTree + 12 * h.nPhone + 4 := by
   unfold mdefTree
   by_cases hb : treeRel > f.size - h.dataOff ∨ h.nCdTree > (f.size - h.dataOff - treeRel) / 8
   · rw [if_pos hb]; trivial
@@ -246,11 +251,74 @@ theorem mdefTree_sat (f : File) (h : MdefHdr) (names : List Nat) (treeRel : Nat)
   rw [if_neg (by intro hx; exact absurd hx.2 (by omega))]
   exact mdefPhones_sat f h names _ _ hn1 hn2 hp
 
-theorem mdefLayout_sat (f : File) (h : MdefHdr) (hh : h.Ok f) : (mdefLayout f h).Sat (MdefLayout.Ok f h) := by
+/-- the table pointers keep the alignment of `ciname[0]`: with D19j (`dataOff % 4 = 0`) every
+`cd_tree_t`/`int32` table starts at a multiple of 4 and the `uint16` sequences at a multiple of 2 -/
+def MdefLayout.Aligned (l : MdefLayout) : Prop :=
+  l.treeOff % 4 = 0 ∧ l.phoneOff % 4 = 0 ∧ l.sseqOff % 4 = 0
+
+theorem mdefLayout_sat' (f : File) (h : MdefHdr) (hh : h.Ok f) :
+    (mdefLayout f h).Sat fun l => MdefLayout.Ok f h l ∧ (h.dataOff % 4 = 0 → l.Aligned) := by
   unfold mdefLayout
   refine Sat.bind (walkNames_sat f f.size h.nCiphone (Nat.le_refl _) h.nCiphone h.dataOff [] (by simp) (by simp)) ?_
   intro r ⟨hn1, hn2⟩
-  exact mdefTree_sat f h r.1 _ hn1 hn2 hh.1
+  refine Sat.mono (mdefTree_sat f h r.1 _ hn1 hn2 hh.1) ?_
+  intro l ⟨hok, e1, e2, e3⟩
+  refine ⟨hok, fun hd => ?_⟩
+  unfold MdefLayout.Aligned
+  rw [e1, e2, e3]
+  omega
+
+theorem mdefLayout_sat (f : File) (h : MdefHdr) (hh : h.Ok f) : (mdefLayout f h).Sat (MdefLayout.Ok f h) :=
+  Sat.mono (mdefLayout_sat' f h hh) fun _ hl => hl.1
+
+/-- D19j: `ciname[0]` is at a multiple of 4 from the start of the file -/
+theorem mdefHeader_aligned (f : File) : (mdefHeader f).Sat fun h => h.dataOff % 4 = 0 := by
+  unfold mdefHeader
+  refine Sat.bind (get32_sat _ (good_init f)) ?_
+  rintro ⟨s0, magic⟩ ⟨g0, p0, _⟩
+  simp only at p0 ⊢
+  split
+  · trivial
+  refine Sat.bind (get32_sat (s := { s0 with swap := decide (magic = mdefOther) }) _ ⟨g0.1, g0.2⟩) ?_
+  rintro ⟨s1, ver⟩ ⟨g1, p1, _⟩
+  simp only at p1 ⊢
+  split
+  · trivial
+  refine Sat.bind (get32_sat _ g1) ?_
+  rintro ⟨s2, dl⟩ ⟨g2, p2, _⟩
+  simp only at p2 ⊢
+  split
+  · trivial
+  rename_i hdl
+  refine Sat.bind (skip_sat _ _ g2) ?_
+  intro s3 ⟨g3, p3, _⟩
+  refine Sat.bind (get32_sat _ g3) ?_
+  rintro ⟨t0, c0⟩ ⟨k0, q0, _⟩
+  refine Sat.bind (get32_sat _ k0) ?_
+  rintro ⟨t1, c1⟩ ⟨k1, q1, _⟩
+  refine Sat.bind (get32_sat _ k1) ?_
+  rintro ⟨t2, c2⟩ ⟨k2, q2, _⟩
+  refine Sat.bind (get32_sat _ k2) ?_
+  rintro ⟨t3, c3⟩ ⟨k3, q3, _⟩
+  refine Sat.bind (get32_sat _ k3) ?_
+  rintro ⟨t4, c4⟩ ⟨k4, q4, _⟩
+  refine Sat.bind (get32_sat _ k4) ?_
+  rintro ⟨t5, c5⟩ ⟨k5, q5, _⟩
+  refine Sat.bind (get32_sat _ k5) ?_
+  rintro ⟨t6, c6⟩ ⟨k6, q6, _⟩
+  refine Sat.bind (get32_sat _ k6) ?_
+  rintro ⟨t7, c7⟩ ⟨k7, q7, _⟩
+  refine Sat.bind (get32_sat _ k7) ?_
+  rintro ⟨t8, c8⟩ ⟨k8, q8, _⟩
+  refine Sat.bind (get32_sat _ k8) ?_
+  rintro ⟨t9, c9⟩ ⟨k9, q9, _⟩
+  simp only at q0 q1 q2 q3 q4 q5 q6 q7 q8 q9 ⊢
+  split
+  · trivial
+  show t9.ptr % 4 = 0
+  have hs : (S.init f).ptr = 0 := rfl
+  have hdl' : (toI32 dl).toNat % 4 = 0 := Classical.byContradiction fun hx => hdl (Or.inr hx)
+  omega
 
 /-! ### the mapping loops -/
 
@@ -467,5 +535,26 @@ theorem mdefPlan_sat (f : File) : (mdefPlan f).Sat (MdefOut.Consistent f) := by
   refine Sat.bind (findCiphone_sat f l.names hl.2.1 litSIL (by decide) _ 0 h.nCiphone (by rw [hl.1]; exact Nat.le_refl _)) ?_
   intro sil _
   exact ⟨hh, hl, m1, m2⟩
+
+/-- D19j: in every accepted file the in-place tables are aligned relative to the start of the file -/
+theorem Sat.and {α : Type} {x : Res α} {P Q : α → Prop} (h1 : x.Sat P) (h2 : x.Sat Q) : x.Sat fun a => P a ∧ Q a := by
+  cases x with
+  | ok a => exact ⟨h1, h2⟩
+  | reject s => trivial
+  | oob i => exact h1
+  | idx i n => exact h1
+
+theorem mdefPlan_aligned (f : File) : (mdefPlan f).Sat fun o => o.hdr.dataOff % 4 = 0 ∧ o.lay.Aligned := by
+  unfold mdefPlan
+  refine Sat.bind (Sat.and (mdefHeader_sat f) (mdefHeader_aligned f)) ?_
+  intro h ⟨hsat, hal⟩
+  refine Sat.bind (mdefLayout_sat' f h hsat) ?_
+  intro l ⟨hl, hal2⟩
+  simp only
+  refine Sat.bind (mapPhones_sat f h l hsat hl h.nPhone 0 _ _ (by simp) (by simp) (by intro k hk; omega)) ?_
+  intro m _
+  refine Sat.bind (findCiphone_sat f l.names hl.2.1 litSIL (by decide) _ 0 h.nCiphone (by rw [hl.1]; exact Nat.le_refl _)) ?_
+  intro sil _
+  exact ⟨hal, hal2 hal⟩
 
 end SSVerif.S3file
